@@ -107,6 +107,27 @@ func (e *C03) Run(ctx *core.Ctx, idx int) {
 		mu = c03MU[(idx/len(c03MPSF))%len(c03MU)]
 		mpsf = c03MPSF[idx%len(c03MPSF)]
 		ctx.Count("C03.exhaustive-cases")
+	} else if idx%4 == 0 {
+		// at scale: dozens to hundreds of nodes and arbitrary percentages (rounding of p% of n, budgets
+		// that only bite with many nodes)
+		n := []int{25, 50, 75, 100, 150, 200, 300}[ctx.Rand.Intn(7)]
+		if ctx.Rand.Intn(2) == 0 {
+			n = 20 + ctx.Rand.Intn(280)
+		}
+		cnt = make([]int, nCls)
+		for i := 0; i < n; i++ {
+			switch k := ctx.Rand.Intn(20); {
+			case k < 16:
+				cnt[clsOldA]++
+			case k < 18:
+				cnt[clsOldU]++
+			default:
+				cnt[clsUpA]++
+			}
+		}
+		mu = intstr.FromString(fmt.Sprintf("%d%%", 1+ctx.Rand.Intn(100)))
+		mpsf = []intstr.IntOrString{intstr.FromInt(0), intstr.FromString(fmt.Sprintf("%d%%", 1+ctx.Rand.Intn(30)))}[ctx.Rand.Intn(2)]
+		ctx.Count("C03.cases-at-scale")
 	} else {
 		minN := 5
 		if ctx.Tier == "thorough" {
@@ -135,6 +156,9 @@ func (e *C03) Run(ctx *core.Ctx, idx int) {
 	reps := 12
 	if ctx.Tier == "thorough" {
 		reps = 24
+	}
+	if n >= 20 {
+		reps = 2
 	}
 	withCleanup := ctx.Rand.Intn(4) == 0
 	// nodes the selector matches but the daemonset does not target (unfit, or reserved for a canary):
